@@ -1,4 +1,4 @@
-import BadgerProofs.Lemmas.LsmCompact
+import BadgerProofs.Lemmas.LsmReads
 /-!
 # C14 — the structural invariant of the LSM tree is preserved
 
@@ -7,6 +7,27 @@ level `≥ 1` the tables are ordered and disjoint by USER key (all versions of a
 live in one table), versions positive.
 -/
 namespace Badger
+
+/-- `LevelOk` on a level `≥ 1` in the textbook form: every table non-empty and sorted, and for
+    consecutive tables the last user key of the first is strictly below the first user key of the
+    second — i.e. all versions of a user key on the level live in one table. -/
+theorem C14_levelOk_iff_consecutive {i : Nat} {tbls : List Tbl} (hi : 1 ≤ i) :
+    LevelOk i tbls ↔ (∀ t ∈ tbls, TblOk t) ∧ KeyDisjointC tbls := by
+  unfold LevelOk
+  constructor
+  · rintro ⟨h1, h2⟩; exact ⟨h1, (LL.keyDisjoint_iff_consecutive h1).mp (h2 hi)⟩
+  · rintro ⟨h1, h2⟩; exact ⟨h1, fun _ => (LL.keyDisjoint_iff_consecutive h1).mpr h2⟩
+
+/-- C14 proper: under the invariant, on a level `≥ 1` two stored versions of the same user key are
+    in the same table. -/
+theorem C14_one_table_per_key {s : Lsm} (h : LsmInv s) {i : Nat} {tbls : List Tbl} (hi : 1 ≤ i)
+    (hl : s.levels[i]? = some tbls) {j j' : Nat} {a b : Tbl} (hj : tbls[j]? = some a) (hj' : tbls[j']? = some b)
+    {x y : Ent} (hx : x ∈ a.ents) (hy : y ∈ b.ents) (hk : x.key = y.key) : j = j' := by
+  apply Classical.byContradiction
+  intro hne
+  rcases LL.level_sep_of_ne ((h.level hl).2 hi) hj hj' hne with hs | hs
+  · exact LL.klt_ne (hs x hx y hy) hk
+  · exact LL.klt_ne (hs y hy x hx) hk.symm
 
 /-- flushing the memtable (it becomes the newest L0 table) preserves the invariant -/
 theorem C14_flush_inv {s : Lsm} (h : LsmInv s) (id : Nat) : LsmInv (s.flush id) := by
@@ -57,6 +78,26 @@ theorem C14_compact_verBound {s s' : Lsm} {cd : CompactDef} {d n now : Nat} (h :
 theorem C14_compact_inv_weak {s s' : Lsm} {cd : CompactDef} {d n now : Nat} (h : LsmInv s) (hv : VerBound s)
     (hc : CompactOk s cd) (hs : s.compact cd d n now = some s') : LsmInvW s' :=
   LL.compact_invW h hv hc hs
+
+/-- (C) the recency invariant `Layered` survives every well-formed compaction other than L0 → L0
+    (data only moves down; L0 → Lbase takes the oldest L0 tables). -/
+theorem C14_compact_layered {s s' : Lsm} {cd : CompactDef} {d n now : Nat} (h : LsmInv s) (hl : Layered s)
+    (hc : CompactOk s cd) (hnot : ¬ IsL0L0 s cd) (hs : s.compact cd d n now = some s') : Layered s' :=
+  LL.compact_layered h hl hc hnot hs
+
+/-- flushing keeps `Layered` (no immutable memtable: the only way the model's `flush` is used) -/
+theorem C14_flush_layered {s : Lsm} (hl : Layered s) (himm : s.imm = []) (id : Nat) : Layered (s.flush id) :=
+  LL.flush_layered hl himm id
+
+/-- the write path (`memPut` of a committed entry with a positive version) preserves the invariant -/
+theorem C14_put_inv {s : Lsm} (h : LsmInv s) {e : Ent} (he : 0 < e.ver) : LsmInv (s.putEnt e) :=
+  LL.put_inv h he
+
+/-- … and recency, when the new version is at least as new as every stored version of its key
+    (commit timestamps increase) -/
+theorem C14_put_layered {s : Lsm} (hl : Layered s) {e : Ent}
+    (hnew : ∀ x ∈ s.allEntries, x.key = e.key → x.ver ≤ e.ver) : Layered (s.putEnt e) :=
+  LL.put_layered hl hnew
 
 /-- `CutsAtKeyChange` is needed: cutting the output in the middle of a user key puts two versions of
     that key into different tables of level 1. -/
